@@ -244,9 +244,11 @@ def gen_corruptions(ctx, rng, base, res, per_base: int):
             if m_ >= 2:
                 cands.append({"kind": "timeline", "nth": 0, "which": which, "op": "gap",
                               "index": rng.randrange(1, m_)})
-            if m_ >= 3:
+            if m_ >= 4:
+                # the segment after the edited one must still be generated and fetched (VOD generation
+                # stops once the *advertised* durations exceed the requested duration)
                 cands.append({"kind": "timeline", "nth": 0, "which": which, "op": "dur",
-                              "index": rng.randrange(1, m_ - 1), "amount": rng.choice([ts // 4, -(ts // 4), ts // 2])})
+                              "index": rng.randrange(1, m_ - 2), "amount": rng.choice([ts // 4, -(ts // 4), ts // 2])})
     n_manifests = sum(1 for ex in res.exchanges if ex.cls == "manifest")
     if base.mode == "live" and n_manifests >= 2:
         cands.append({"kind": "ast", "nth": rng.randrange(1, n_manifests),
@@ -563,7 +565,7 @@ def correspond(case, res, chs, batch: Batch):
             continue
         lines = []
         for ex in exs:
-            top, moov = [], []
+            top, moov, video = [], [], False
             if ex.status in (200, 206):
                 try:
                     import mp4walk
@@ -577,10 +579,12 @@ def correspond(case, res, chs, batch: Batch):
                             desc(c)
                     if mv is not None:
                         desc(mv)
+                        hd = mp4walk.find(mv, "trak/mdia/hdlr")
+                        video = hd is not None and hd.fields.get("handler_type") == "vide"
                 except Exception:
                     lines = None
                     break
-            lines.append(f"vinit 1,{ex.status},0 {','.join(top) or '-'} {','.join(moov) or '-'}")
+            lines.append(f"vinit 1,{ex.status},0,{M.b(video)} {','.join(top) or '-'} {','.join(moov) or '-'}")
         if lines is None:
             chs["vinit"].count("skipped:unreadable-init")
             continue
